@@ -504,6 +504,7 @@ func runC05(c *core.Ctx) {
 	pkgs := loadStd(c, cb)
 	pkgs = append(pkgs, loadCorpus(c, cb, "liveness")...)
 	nCoro, sumM, sumM0, sumG, nCSPs, nWithSaved := 0, 0, 0, 0, 0, 0
+	sumMC, nCSPC := 0, 0
 	for _, p := range pkgs {
 		src, err := os.ReadFile(p.CPath)
 		if err != nil {
@@ -574,6 +575,32 @@ func runC05(c *core.Ctx) {
 				continue
 			}
 			checkResumeSuspend(c, anchor, fname, g, stmts, cfn)
+			// (1b) liveness on the generated C itself.
+			liveC, asgC, ctype, ncspC := cLiveAcross(stmts)
+			var missC, ptrC []string
+			nLiveC := 0
+			for v, at := range liveC {
+				if !asgC[v] {
+					continue
+				}
+				nLiveC++
+				if g[v] || g[v+"[]"] {
+					continue
+				}
+				if pointerBearingCType(ctype[v]) {
+					ptrC = append(ptrC, v)
+					continue
+				}
+				missC = append(missC, fmt.Sprintf("%s (%s) live after suspension point(s) %s", v, ctype[v], strings.Join(at, ",")))
+			}
+			sort.Strings(missC)
+			sumMC += nLiveC
+			nCSPC += ncspC
+			if ncspC > 0 {
+				c.Check(len(missC) == 0, "L1c.cliveness", anchor,
+					"in the generated C, every local (v_*, t_*) that is read after a suspension-point label before being reassigned, and that is assigned somewhere, is restored from the saved-state struct", ncspC+nLiveC,
+					fmt.Sprintf("generated function %s: not saved: %v — a resumed call would read the re-zeroed local", cname, missC))
+			}
 		}
 	}
 	c.Analysed("coroutines", nCoro)
@@ -582,6 +609,8 @@ func runC05(c *core.Ctx) {
 	c.Analysed("sum_must_save_M", sumM)
 	c.Analysed("sum_live_at_some_point_M0", sumM0)
 	c.Analysed("sum_saved_G", sumG)
+	c.Analysed("sum_live_in_generated_C", sumMC)
+	c.Analysed("suspension_point_labels_in_generated_C", nCSPC)
 	c.Floor("L1", "coroutines analysed", nCoro, 190)
 	c.Floor("L1.saved", "coroutines with at least one saved local", nWithSaved, 50)
 }
